@@ -2850,6 +2850,425 @@ example : ∃ (W : Nat → Option Tree) (t : Tree) (evs : List NNetEv), WorldOK 
     have : s = 0 ∨ s = 1 ∨ s = 2 := by omega
     rcases this with rfl | rfl | rfl <;> decide
 
+/-! #### liveness at quiescence for any number of servers
+
+`NProgress t r s p n`: server `p` holds tree `t` (roster `r`) and server `s ≠ p` either holds it too or is waiting
+for it with something under way between the two: its request to `p`, `p`'s answer in one of the two forms, or the
+parked description together with the roster request to `p` or a roster message (from anybody).  Every step of the
+network that loses or withdraws nothing about `t` keeps it — whatever the other servers do, whatever they send to `s`
+or `p` (their messages are messages of the world), in any order, with duplicates. -/
+
+def NWaiting (t : Tree) (r : Roster) (s p : Nat) (n : NNet) : Prop :=
+  (∃ v, (s, Msg.requestTree t.id v) ∈ n.inbox p) ∨
+  (p, Msg.responseTree (some (makeTreeMarshal t)) (some r)) ∈ n.inbox s ∨
+  (p, Msg.treeMarshal (makeTreeMarshal t)) ∈ n.inbox s ∨
+  ((∃ sl, lookup (n.ovl s).pending r.id = some sl ∧ makeTreeMarshal t ∈ sl) ∧
+    ((s, Msg.requestRoster r.id) ∈ n.inbox p ∨ ∃ u, (u, Msg.sendRoster r) ∈ n.inbox s))
+
+def NProgress (t : Tree) (r : Roster) (s p : Nat) (n : NNet) : Prop :=
+  (n.ovl p).get t.id = some t ∧
+  ((n.ovl s).get t.id = some t ∨ ((n.ovl s).isRequested t.id = true ∧ NWaiting t r s p n))
+
+/-- nothing about tree `id` is lost or withdrawn -/
+def NEvKeeps (id : Nat) : NNetEv → Prop
+  | .drop _ _ => False
+  | .loc _ (.unrequest i) => i ≠ id
+  | .loc _ (.expire i) => i ≠ id
+  | _ => True
+
+def NQuiet (n : NNet) : Prop := ∀ s, n.inbox s = []
+
+private theorem updN_at {α : Type} (f : Nat → α) (u x : Nat) (v : α) : updN f u v x = if x = u then v else f x := rfl
+
+private theorem nhandleAt_ovl (n : NNet) (u f : Nat) (m : Msg) (rest : List (Nat × Msg)) (x : Nat) :
+    (n.handleAt u f m rest).ovl x = if x = u then (handle (n.ovl u) m).1 else n.ovl x := rfl
+
+/-- what was in flight and is not the handled message stays in flight -/
+private theorem nhandleAt_keeps (n : NNet) (u f : Nat) (m : Msg) (rest : List (Nat × Msg)) (x : Nat) (y : Nat × Msg)
+    (hy : y ∈ (if x = u then rest else n.inbox x)) : y ∈ (n.handleAt u f m rest).inbox x := by
+  simp only [NNet.handleAt, updN_at]
+  by_cases hf : x = f
+  · simp only [hf, if_true]
+    apply List.mem_append_left
+    rw [hf] at hy; exact hy
+  · simp only [hf, if_false]; exact hy
+
+/-- the replies are on their way to the sender -/
+private theorem nhandleAt_reply (n : NNet) (u f : Nat) (m : Msg) (rest : List (Nat × Msg)) (out : Out)
+    (ho : out ∈ (handle (n.ovl u) m).2) : (u, out.toMsg) ∈ (n.handleAt u f m rest).inbox f := by
+  simp only [NNet.handleAt, updN_at, if_true]
+  apply List.mem_append_right
+  exact List.mem_map.mpr ⟨out, ho, rfl⟩
+
+/-- the holder `p` handles a message (from anybody) -/
+private theorem nprogress_holder {W : Nat → Option Tree} (hW : WorldOK W) (t : Tree) (r : Roster) (ht : W t.id = some t)
+    (hr : t.roster = some r) (s p : Nat) (hsp : s ≠ p) (n : NNet) (hn : NNetOK W n) (hp : NProgress t r s p n)
+    (f : Nat) (m : Msg) (rest : List (Nat × Msg))
+    (hrest : ∀ y, y ∈ n.inbox p → y ≠ (f, m) → y ∈ rest) : NProgress t r s p (n.handleAt p f m rest) := by
+  obtain ⟨hA, hB⟩ := hp
+  have e2 : (n.handleAt p f m rest).ovl s = n.ovl s := by simp [nhandleAt_ovl, hsp]
+  have keepS : ∀ y, y ∈ n.inbox s → y ∈ (n.handleAt p f m rest).inbox s :=
+    fun y hy => nhandleAt_keeps n p f m rest s y (by simp only [hsp, if_false]; exact hy)
+  have keepP : ∀ y, y ∈ n.inbox p → y ≠ (f, m) → y ∈ (n.handleAt p f m rest).inbox p :=
+    fun y hy hne => nhandleAt_keeps n p f m rest p y (by simp only [if_true]; exact hrest y hy hne)
+  refine ⟨by rw [nhandleAt_ovl]; simp only [if_true]; exact c06_never_replaces _ m _ _ hA, ?_⟩
+  rcases hB with hB | ⟨hreq, hw⟩
+  · left; rw [e2]; exact hB
+  · right
+    refine ⟨by rw [e2]; exact hreq, ?_⟩
+    unfold NWaiting
+    rw [e2]
+    rcases hw with ⟨v, hv⟩ | h2 | h3 | ⟨hpk, h4 | h5⟩
+    · by_cases hx : (s, Msg.requestTree t.id v) = (f, m)
+      · obtain ⟨hf, hm⟩ := Prod.mk.inj hx
+        subst hf; subst hm
+        by_cases hv0 : v = 0
+        · right; right; left
+          have := nhandleAt_reply n p s (Msg.requestTree t.id v) rest (.treeMarshal (makeTreeMarshal t))
+            (by simp [handle, hA, hv0])
+          simpa [Out.toMsg] using this
+        · right; left
+          have := nhandleAt_reply n p s (Msg.requestTree t.id v) rest (.responseTree (makeTreeMarshal t) t.roster)
+            (by simp [handle, hA, hv0])
+          simpa [Out.toMsg, hr] using this
+      · exact Or.inl ⟨v, keepP _ hv hx⟩
+    · exact Or.inr (Or.inl (keepS _ h2))
+    · exact Or.inr (Or.inr (Or.inl (keepS _ h3)))
+    · refine Or.inr (Or.inr (Or.inr ⟨hpk, ?_⟩))
+      by_cases hx : (s, Msg.requestRoster r.id) = (f, m)
+      · obtain ⟨hf, hm⟩ := Prod.mk.inj hx
+        subst hf; subst hm
+        right
+        have hgr := getRoster_of_stored hW (n.ovl p) (hn.1 p) t r ht hr hA
+        have := nhandleAt_reply n p s (Msg.requestRoster r.id) rest (.roster (some r)) (by simp [handle, hgr])
+        exact ⟨p, by simpa [Out.toMsg] using this⟩
+      · exact Or.inl (keepP _ h4 hx)
+    · obtain ⟨u, hu⟩ := h5
+      exact Or.inr (Or.inr (Or.inr ⟨hpk, Or.inr ⟨u, keepS _ hu⟩⟩))
+
+/-- the server that waits for the tree handles a message (from anybody) -/
+private theorem nprogress_requester {W : Nat → Option Tree} (hW : WorldOK W) (t : Tree) (r : Roster) (ht : W t.id = some t)
+    (hr : t.roster = some r) (s p : Nat) (hsp : s ≠ p) (n : NNet) (hn : NNetOK W n) (hp : NProgress t r s p n)
+    (f : Nat) (m : Msg) (rest : List (Nat × Msg))
+    (hm : (f, m) ∈ n.inbox s) (hrest : ∀ y, y ∈ n.inbox s → y ≠ (f, m) → y ∈ rest) :
+    NProgress t r s p (n.handleAt s f m rest) := by
+  obtain ⟨hA, hB⟩ := hp
+  have hps : ¬ p = s := fun e => hsp e.symm
+  have e1 : (n.handleAt s f m rest).ovl s = (handle (n.ovl s) m).1 := by simp [nhandleAt_ovl]
+  have e2 : (n.handleAt s f m rest).ovl p = n.ovl p := by simp [nhandleAt_ovl, hps]
+  have keepP : ∀ y, y ∈ n.inbox p → y ∈ (n.handleAt s f m rest).inbox p :=
+    fun y hy => nhandleAt_keeps n s f m rest p y (by simp only [hps, if_false]; exact hy)
+  have keepS : ∀ y, y ∈ n.inbox s → y ≠ (f, m) → y ∈ (n.handleAt s f m rest).inbox s :=
+    fun y hy hne => nhandleAt_keeps n s f m rest s y (by simp only [if_true]; exact hrest y hy hne)
+  refine ⟨by rw [e2]; exact hA, ?_⟩
+  rcases hB with hB | ⟨hreq, hw⟩
+  · left; rw [e1]; exact c06_never_replaces _ m _ _ hB
+  · have hok := (handle_ok hW (n.ovl s) m (hn.1 s) (hn.2 s (f, m) hm)).1
+    have hist : ∀ t', (handle (n.ovl s) m).1.get t.id = some t' → (handle (n.ovl s) m).1.get t.id = some t := by
+      intro t' h
+      have := hok.1 t.id t' (get_mem _ _ _ h)
+      rw [ht] at this
+      rw [h, Option.some.inj this]
+    obtain ⟨_, hid0, ro, hwf, hd, hrid0⟩ := hW.1 t.id t ht
+    have hror : ro = r := by have := hwf.1; rw [hr] at this; exact (Option.some.inj this).symm
+    subst hror
+    have hmk := world_mk hW t ro ht hr
+    have htid := mtm_treeId t ro hr
+    have hrid := mtm_rosterId t ro hr
+    -- the answer in the current form (from anybody)
+    by_cases hmA : m = .responseTree (some (makeTreeMarshal t)) (some ro)
+    · left; rw [e1, hmA]
+      have := c06_requested_wellformed_stored (n.ovl s) (makeTreeMarshal t) ro t (by rw [htid]; exact hid0)
+        (by rw [htid]; exact hreq) hmk
+      rwa [htid] at this
+    -- the description in the deprecated form (from anybody)
+    by_cases hmB : m = .treeMarshal (makeTreeMarshal t)
+    · subst hmB
+      have hreq' : (n.ovl s).isRequested (makeTreeMarshal t).treeId = true := by rw [htid]; exact hreq
+      cases hi : (n.ovl s).instRoster (makeTreeMarshal t).rosterId with
+      | some ro' =>
+        left; rw [e1]
+        obtain ⟨id0, t0, hg0, hr0, hid0'⟩ := instRoster_mem _ _ ro' hi
+        have hw0 := (hn.1 s).1 id0 t0 (get_mem _ id0 t0 hg0)
+        have hid00 := (hW.1 id0 t0 hw0).1
+        have hrr : ro = ro' := hW.2 t.id t0.id t t0 ro ro' ht (by rw [hid00]; exact hw0) hr hr0 (by rw [hid0', hrid])
+        subst hrr
+        have hh : (handle (n.ovl s) (.treeMarshal (makeTreeMarshal t))).1 =
+            handleSendTree (n.ovl s) (some (makeTreeMarshal t)) (some ro) := by
+          simp [handle, htid, hid0, hreq, hi]
+        rw [hh]
+        have h5 := c06_requested_wellformed_stored (n.ovl s) (makeTreeMarshal t) ro t (by rw [htid]; exact hid0) hreq' hmk
+        rw [htid] at h5
+        simpa [handle] using h5
+      | none =>
+        right
+        have hi' : (n.ovl s).instRoster ro.id = none := by rw [← hrid]; exact hi
+        have hst1 : (handle (n.ovl s) (.treeMarshal (makeTreeMarshal t))).1.store = (n.ovl s).store := by
+          simp [handle, htid, hid0, hreq, hi]
+        have hp1 : (handle (n.ovl s) (.treeMarshal (makeTreeMarshal t))).1.pending =
+            insert (n.ovl s).pending ro.id ((lookup (n.ovl s).pending ro.id).getD [] ++ [makeTreeMarshal t]) := by
+          simp [handle, htid, hid0, hreq, hi', hrid]
+        refine ⟨by rw [e1, req_lookup, hst1]; exact (req_lookup _ _).mp hreq, ?_⟩
+        -- the description is parked now; what was under way between `s` and `p` still is, unless this was `p`'s
+        -- description: then the roster request is on its way to `p`
+        have hparked : ∃ sl, lookup ((n.handleAt s f (.treeMarshal (makeTreeMarshal t)) rest).ovl s).pending ro.id = some sl ∧
+            makeTreeMarshal t ∈ sl := by
+          rw [e1, hp1]; exact ⟨_, lookup_insert_self _ _ _, by simp⟩
+        unfold NWaiting
+        rcases hw with ⟨v, hv⟩ | h2 | h3 | ⟨_, h4 | ⟨u, h5⟩⟩
+        · exact Or.inl ⟨v, keepP _ hv⟩
+        · exact Or.inr (Or.inl (keepS _ h2 (by intro e; cases e)))
+        · by_cases hx : (p, Msg.treeMarshal (makeTreeMarshal t)) = (f, Msg.treeMarshal (makeTreeMarshal t))
+          · have hf : p = f := (Prod.mk.inj hx).1
+            subst hf
+            refine Or.inr (Or.inr (Or.inr ⟨hparked, Or.inl ?_⟩))
+            have := nhandleAt_reply n s p (.treeMarshal (makeTreeMarshal t)) rest (.requestRoster ro.id)
+              (by simp [handle, htid, hid0, hreq, hi', hrid])
+            simpa [Out.toMsg] using this
+          · exact Or.inr (Or.inr (Or.inl (keepS _ h3 hx)))
+        · exact Or.inr (Or.inr (Or.inr ⟨hparked, Or.inl (keepP _ h4)⟩))
+        · exact Or.inr (Or.inr (Or.inr ⟨hparked, Or.inr ⟨u, keepS _ h5 (by intro e; cases e)⟩⟩))
+    -- the roster (from anybody), while the description is parked
+    by_cases hmC : m = .sendRoster ro ∧ ∃ sl, lookup (n.ovl s).pending ro.id = some sl ∧ makeTreeMarshal t ∈ sl
+    · obtain ⟨hmC1, sl, hl, hmem⟩ := hmC
+      left; rw [e1]
+      have hsome : ((handle (n.ovl s) m).1.get t.id).isSome = true := by
+        rw [hmC1]
+        simp only [handle, hrid0, if_false]
+        rw [checkPending_eq, hl]
+        have := fold_stores ro (makeTreeMarshal t) t hmk sl (n.ovl s) hmem
+        simpa [Ovl.get] using this
+      cases hg : (handle (n.ovl s) m).1.get t.id with
+      | none => rw [hg] at hsome; simp at hsome
+      | some t' => rw [← hg]; exact hist t' hg
+    -- anything else
+    rcases handle_keeps_marker (n.ovl s) m t.id hreq with hk | ⟨t', hst⟩
+    · right
+      refine ⟨by rw [e1]; exact hk, ?_⟩
+      unfold NWaiting
+      rw [e1]
+      rcases hw with ⟨v, hv⟩ | h2 | h3 | ⟨⟨sl, hl, hmem⟩, h45⟩
+      · exact Or.inl ⟨v, keepP _ hv⟩
+      · exact Or.inr (Or.inl (keepS _ h2 (fun e => hmA (Prod.mk.inj e).2.symm)))
+      · exact Or.inr (Or.inr (Or.inl (keepS _ h3 (fun e => hmB (Prod.mk.inj e).2.symm))))
+      · have hnr : ∀ ro', m = .sendRoster ro' → ro'.id ≠ ro.id := by
+          intro ro' he hid'
+          apply hmC
+          have hmsg := hn.2 s (f, m) hm
+          simp only at hmsg
+          rw [he] at hmsg
+          rcases hmsg with h0 | ⟨t0, hw0, hr0⟩
+          · rw [hid'] at h0; exact absurd h0 hrid0
+          · have : ro' = ro := hW.2 t0.id t.id t0 t ro' ro hw0 ht hr0 hr hid'
+            rw [he, this]
+            exact ⟨rfl, sl, hl, hmem⟩
+        obtain ⟨sl', hl', hmem'⟩ := handle_keeps_parked (n.ovl s) m ro.id sl _ hl hmem hnr
+        refine Or.inr (Or.inr (Or.inr ⟨⟨sl', hl', hmem'⟩, ?_⟩))
+        rcases h45 with h4 | ⟨u, h5⟩
+        · exact Or.inl (keepP _ h4)
+        · refine Or.inr ⟨u, keepS _ h5 ?_⟩
+          intro e
+          exact hnr ro (Prod.mk.inj e).2.symm rfl
+    · left; rw [e1]; exact hist t' hst
+
+/-- a third server handles a message: nothing between `s` and `p` is touched, what it sends is added -/
+private theorem nprogress_other (t : Tree) (r : Roster) (s p u : Nat) (hus : u ≠ s) (hup : u ≠ p) (n : NNet)
+    (hp : NProgress t r s p n) (f : Nat) (m : Msg) (rest : List (Nat × Msg)) :
+    NProgress t r s p (n.handleAt u f m rest) := by
+  obtain ⟨hA, hB⟩ := hp
+  have hsu : ¬ s = u := fun e => hus e.symm
+  have hpu : ¬ p = u := fun e => hup e.symm
+  have e1 : (n.handleAt u f m rest).ovl s = n.ovl s := by simp [nhandleAt_ovl, hsu]
+  have e2 : (n.handleAt u f m rest).ovl p = n.ovl p := by simp [nhandleAt_ovl, hpu]
+  have keepS : ∀ y, y ∈ n.inbox s → y ∈ (n.handleAt u f m rest).inbox s :=
+    fun y hy => nhandleAt_keeps n u f m rest s y (by simp only [hsu, if_false]; exact hy)
+  have keepP : ∀ y, y ∈ n.inbox p → y ∈ (n.handleAt u f m rest).inbox p :=
+    fun y hy => nhandleAt_keeps n u f m rest p y (by simp only [hpu, if_false]; exact hy)
+  refine ⟨by rw [e2]; exact hA, ?_⟩
+  rcases hB with hB | ⟨hreq, hw⟩
+  · left; rw [e1]; exact hB
+  · right
+    refine ⟨by rw [e1]; exact hreq, ?_⟩
+    unfold NWaiting
+    rw [e1]
+    rcases hw with ⟨v, hv⟩ | h2 | h3 | ⟨hpk, h4 | ⟨x, h5⟩⟩
+    · exact Or.inl ⟨v, keepP _ hv⟩
+    · exact Or.inr (Or.inl (keepS _ h2))
+    · exact Or.inr (Or.inr (Or.inl (keepS _ h3)))
+    · exact Or.inr (Or.inr (Or.inr ⟨hpk, Or.inl (keepP _ h4)⟩))
+    · exact Or.inr (Or.inr (Or.inr ⟨hpk, Or.inr ⟨x, keepS _ h5⟩⟩))
+
+/-- one step that loses and withdraws nothing about `t` keeps `NProgress` -/
+theorem nprogress_step {W : Nat → Option Tree} (hW : WorldOK W) (t : Tree) (r : Roster) (ht : W t.id = some t)
+    (hr : t.roster = some r) (s p : Nat) (hsp : s ≠ p) (n : NNet) (hn : NNetOK W n) (hp : NProgress t r s p n)
+    (e : NNetEv) (he : NEvOK W e) (hk : NEvKeeps t.id e) : NProgress t r s p (nnetStep n e) := by
+  -- a local action `l` at server `u`, possibly with more messages put in flight
+  have hloc : ∀ (u : Nat) (l : Local) (inbox' : Nat → List (Nat × Msg)),
+      (match l with | .register t' => W t'.id = some t' | .instance t' => W t'.id = some t' | _ => True) →
+      (∀ i, (l = .expire i ∨ l = .unrequest i) → i ≠ t.id) → (∀ x y, y ∈ n.inbox x → y ∈ inbox' x) →
+      NProgress t r s p { ovl := updN n.ovl u (localStep (n.ovl u) l), inbox := inbox' } := by
+    intro u l inbox' hl hkeep hsub
+    obtain ⟨hA, hB⟩ := hp
+    refine ⟨?_, ?_⟩
+    · simp only [updN_at]
+      split
+      · next h => rw [← h]; exact local_keeps_tree _ l t ht hA hl (fun i h => hkeep i (Or.inl h))
+      · exact hA
+    · by_cases hu : s = u
+      · subst hu
+        simp only [updN_at, if_true]
+        rcases hB with hB | ⟨hreq, hw⟩
+        · exact Or.inl (local_keeps_tree _ l t ht hB hl (fun i h => hkeep i (Or.inl h)))
+        · rcases local_keeps_marker (n.ovl s) l t.id hreq hkeep with h | ⟨t', h⟩
+          · right
+            refine ⟨h, ?_⟩
+            unfold NWaiting
+            simp only [updN_at, if_true, local_pending]
+            rcases hw with ⟨v, hv⟩ | h2 | h3 | ⟨hpk, h4 | ⟨x, h5⟩⟩
+            · exact Or.inl ⟨v, hsub _ _ hv⟩
+            · exact Or.inr (Or.inl (hsub _ _ h2))
+            · exact Or.inr (Or.inr (Or.inl (hsub _ _ h3)))
+            · exact Or.inr (Or.inr (Or.inr ⟨hpk, Or.inl (hsub _ _ h4)⟩))
+            · exact Or.inr (Or.inr (Or.inr ⟨hpk, Or.inr ⟨x, hsub _ _ h5⟩⟩))
+          · left
+            have hok := local_ok (n.ovl s) l (hn.1 s) hl
+            have := hok.1 t.id t' (get_mem _ _ _ h)
+            rw [ht] at this
+            rw [h, Option.some.inj this]
+      · have hne : ¬ s = u := hu
+        rcases hB with hB | ⟨hreq, hw⟩
+        · left; simp only [updN_at, hne, if_false]; exact hB
+        · right
+          refine ⟨by simp only [updN_at, hne, if_false]; exact hreq, ?_⟩
+          unfold NWaiting
+          simp only [updN_at, hne, if_false]
+          rcases hw with ⟨v, hv⟩ | h2 | h3 | ⟨hpk, h4 | ⟨x, h5⟩⟩
+          · exact Or.inl ⟨v, hsub _ _ hv⟩
+          · exact Or.inr (Or.inl (hsub _ _ h2))
+          · exact Or.inr (Or.inr (Or.inl (hsub _ _ h3)))
+          · exact Or.inr (Or.inr (Or.inr ⟨hpk, Or.inl (hsub _ _ h4)⟩))
+          · exact Or.inr (Or.inr (Or.inr ⟨hpk, Or.inr ⟨x, hsub _ _ h5⟩⟩))
+  -- a message handled at server `u`
+  have hdel : ∀ (u f : Nat) (m : Msg) (rest : List (Nat × Msg)), (f, m) ∈ n.inbox u →
+      (∀ y, y ∈ n.inbox u → y ≠ (f, m) → y ∈ rest) → NProgress t r s p (n.handleAt u f m rest) := by
+    intro u f m rest hm hrest
+    by_cases h1 : u = s
+    · subst h1; exact nprogress_requester hW t r ht hr u p hsp n hn hp f m rest hm hrest
+    · by_cases h2 : u = p
+      · subst h2; exact nprogress_holder hW t r ht hr s u hsp n hn hp f m rest hrest
+      · exact nprogress_other t r s p u h1 h2 n hp f m rest
+  cases e with
+  | loc u l =>
+    refine hloc u l n.inbox ?_ ?_ (fun _ _ h => h)
+    · cases l <;> first | exact he | trivial
+    · intro i h
+      rcases h with h | h <;> subst h <;> exact hk
+  | ask u q i v =>
+    simp only [nnetStep]
+    refine hloc u (.reqSend i) _ trivial ?_ ?_
+    · intro j h; rcases h with h | h <;> cases h
+    · intro x y hy
+      split
+      · simp only [updN_at]
+        split
+        · next h => rw [h] at hy; exact List.mem_append_left _ hy
+        · exact hy
+      · exact hy
+  | deliver u i =>
+    simp only [nnetStep]
+    cases hg : (n.inbox u)[i]? with
+    | none => exact hp
+    | some m => exact hdel u m.1 m.2 _ (List.mem_of_getElem? hg) (eraseIdx_rest _ i m hg)
+  | redeliver u i =>
+    simp only [nnetStep]
+    cases hg : (n.inbox u)[i]? with
+    | none => exact hp
+    | some m => exact hdel u m.1 m.2 _ (List.mem_of_getElem? hg) (fun y hy _ => hy)
+  | drop u i => exact absurd hk (by simp [NEvKeeps])
+
+/-- **liveness at quiescence, any number of servers**: server `s` asked server `p` for tree `t` (or already waits for
+it with something under way between the two), `p` holds `t`.  After any run in which nothing about `t` is lost or
+withdrawn — whatever `s`, `p` and all the other servers do and send meanwhile, in any order, with duplicates, in the
+current or the deprecated form — `NProgress` still holds; and when no message is in flight anywhere, `s` holds exactly
+`t`: no request is stuck, no description stays parked for ever, and no third server's traffic can make it so. -/
+theorem c06_n_servers_quiescent_request_answered (W : Nat → Option Tree) (hW : WorldOK W) (t : Tree) (r : Roster)
+    (ht : W t.id = some t) (hr : t.roster = some r) (s p : Nat) (hsp : s ≠ p) (n : NNet) (hn : NNetOK W n)
+    (hp : NProgress t r s p n) (evs : List NNetEv) (hev : ∀ e ∈ evs, NEvOK W e ∧ NEvKeeps t.id e) :
+    NProgress t r s p (nnetRun n evs) ∧ (NQuiet (nnetRun n evs) → ((nnetRun n evs).ovl s).get t.id = some t) := by
+  have hrun : NNetOK W (nnetRun n evs) ∧ NProgress t r s p (nnetRun n evs) := by
+    unfold nnetRun
+    induction evs generalizing n with
+    | nil => exact ⟨hn, hp⟩
+    | cons e rest ih =>
+      simp only [List.foldl_cons]
+      have h1 := hev e (by simp)
+      exact ih _ (nnetStep_ok hW n e hn h1.1) (nprogress_step hW t r ht hr s p hsp n hn hp e h1.1 h1.2)
+        (fun x hx => hev x (List.mem_cons_of_mem _ hx))
+  refine ⟨hrun.2, ?_⟩
+  intro hq
+  rcases hrun.2.2 with h | ⟨_, hw⟩
+  · exact h
+  · exfalso
+    unfold NWaiting at hw
+    simp [hq s, hq p] at hw
+
+/-- how a request starts: `s` does not know the tree, `p` holds it; `ask` puts the pair into `NProgress` -/
+theorem c06_n_ask_starts_progress (t : Tree) (r : Roster) (s p : Nat) (hsp : s ≠ p) (n : NNet) (v : Nat)
+    (hA : (n.ovl p).get t.id = some t) (hB : lookup (n.ovl s).store t.id = none) :
+    NProgress t r s p (nnetStep n (.ask s p t.id v)) := by
+  have hne : ¬ p = s := fun e => hsp e.symm
+  have hw : (n.ovl s).wouldRequest t.id = true := by simp [Ovl.wouldRequest, hB]
+  refine ⟨?_, Or.inr ⟨?_, Or.inl ⟨v, ?_⟩⟩⟩
+  · simp only [nnetStep, updN_at, hne, if_false]; exact hA
+  · simp only [nnetStep, updN_at, if_true, localStep, hw]
+    rw [req_lookup]; exact lookup_insert_self _ _ _
+  · simp only [nnetStep, hw, if_true, updN_at]
+    simp
+
+/-- non-vacuity of the N-server quiescence theorem: server 0 registered tree 1; server 2 asks it in the deprecated
+form; meanwhile server 1 also asks 0 (current form) and — holding nothing yet — is asked by server 3; ten deliveries in
+an interleaved order later nothing is in flight among the four servers (and the theorem says 2 holds the tree) -/
+example : ∃ (W : Nat → Option Tree) (t : Tree) (r : Roster) (n : NNet) (evs : List NNetEv), WorldOK W ∧ W t.id = some t ∧
+    t.roster = some r ∧ NNetOK W n ∧ NProgress t r 2 0 n ∧ (∀ e ∈ evs, NEvOK W e ∧ NEvKeeps t.id e) ∧
+    (∀ s, s < 4 → (nnetRun n evs).inbox s = []) ∧ ((nnetRun n evs).ovl 1).get t.id = some t := by
+  let ro : Roster := { id := 9, list := [⟨3, 4, false⟩, ⟨5, 6, false⟩] }
+  let t := newTree 1 ro (.node 3 3 4 0 0 (.node 5 5 6 1 0 .nil (.node 3 3 4 0 0 .nil .nil)) .nil)
+  let W : Nat → Option Tree := fun id => if id = 1 then some t else none
+  have hd : ro.Distinct := by unfold Roster.Distinct; decide
+  have hw : t.WF ro := newTree_wf 1 ro _ (by decide) (by simp [NodesOK, ro])
+  have hW : WorldOK W := by
+    refine ⟨?_, ?_⟩
+    · intro id x hx
+      by_cases h1 : id = 1
+      · simp only [W, h1, if_true, Option.some.injEq] at hx
+        subst hx; subst h1
+        exact ⟨rfl, by decide, ro, hw, hd, by decide⟩
+      · simp [W, h1] at hx
+    · intro i j x x' r r' hx hx' hr hr' _
+      by_cases h1 : i = 1
+      · by_cases h2 : j = 1
+        · simp only [W, h1, h2, if_true, Option.some.injEq] at hx hx'
+          subst hx; subst hx'
+          rw [hr] at hr'; exact Option.some.inj hr'
+        · simp [W, h2] at hx'
+      · simp [W, h1] at hx
+  have ht : W t.id = some t := by simp [W, t, newTree]
+  let n0 : NNet := nnetStep { ovl := fun _ => {}, inbox := fun _ => [] } (.loc 0 (.register t))
+  have hn0 : NNetOK W n0 := nnetStep_ok hW _ _ (nnetOK_empty W) ht
+  let n1 : NNet := nnetStep n0 (.ask 2 0 t.id 0)
+  have hn1 : NNetOK W n1 := nnetStep_ok hW _ _ hn0 trivial
+  have hp : NProgress t ro 2 0 n1 := c06_n_ask_starts_progress t ro 2 0 (by decide) n0 0 (by decide) (by decide)
+  let evs : List NNetEv := [.ask 1 0 1 1, .ask 3 1 1 1, .deliver 0 1, .deliver 1 0, .deliver 0 0, .deliver 1 0,
+    .deliver 2 0, .deliver 0 0, .deliver 2 0]
+  have hev : ∀ e ∈ evs, NEvOK W e ∧ NEvKeeps t.id e := by
+    intro e he
+    simp only [evs, List.mem_cons, List.mem_nil_iff, or_false] at he
+    rcases he with h | h | h | h | h | h | h | h | h <;> subst h <;> exact ⟨trivial, trivial⟩
+  refine ⟨W, t, ro, n1, evs, hW, ht, hw.1, hn1, hp, hev, ?_, by decide⟩
+  intro s hs
+  have : s = 0 ∨ s = 1 ∨ s = 2 ∨ s = 3 := by omega
+  rcases this with rfl | rfl | rfl | rfl <;> decide
+
 /-! ### the code regions the model stands for
 Regenerated from /repo's source on every run (`harness/cmd/astfacts` → `OnetVerif/Shapes.lean`): the
 calls that matter for synchronisation and data flow, the lock regions and (for decision logic) the
